@@ -67,6 +67,15 @@ def build_repo(rng, root, big=False):
             put('metadata/%s/timestamp.chk' % s, b'chk\n')
     for n in rng.sample(['header.txt', 'skel.ebuild', 'skel.metadata.xml'], rng.randrange(0, 3)):
         put(n, b'top ' + blob(5))
+    # hidden directories holding files with ordinary names (editor / VCS leftovers): nobody lists them
+    dirs = sorted(set(os.path.dirname(p) for p in files))
+    for d in dirs:
+        if rng.random() < 0.12:
+            hd = os.path.join(root, d, rng.choice(['.git', '.unused', '.backup', '.idea']))
+            os.makedirs(os.path.join(hd, 'deep'), exist_ok=True)
+            for n in ('config', 'deep/old.patch', 'foo.eclass'):
+                with open(os.path.join(hd, n), 'wb') as f:
+                    f.write(b'hidden ' + blob(4))
     return files, cats
 
 
